@@ -29,6 +29,7 @@ mod stageglue;
 mod stress;
 mod triepos;
 mod locksdemo;
+mod rtlock;
 mod util;
 mod wal;
 mod walker;
@@ -61,6 +62,7 @@ fn main() {
         "flock-child" => std::process::exit(flock::child(&args)),
         "stress-child" => std::process::exit(stress::child(&args)),
         "locks-nested" => std::process::exit(locksdemo::run(&args)),
+        "rtlock-child" => std::process::exit(rtlock::child(&args)),
         _ => {}
     }
     let mut sink = util::Sink::new();
@@ -71,6 +73,7 @@ fn main() {
         "flock" => flock::run(&args, &mut sink),
         "stress" => stress::run(&args, &mut sink),
         "locks-scenarios" => locksdemo::scenarios(&mut sink),
+        "rtlock-scenarios" => rtlock::scenarios(&mut sink),
         "alloc-freelist" => alloc::run_freelist(seed, cases, &mut sink),
         "alloc-probe" => alloc::run_probe(seed, cases, &mut sink),
         "alloc-lookup" => alloc::run_lookup(seed, cases, &mut sink),
